@@ -176,6 +176,7 @@ def materialise(wl, libs, root, order_rng=None):
         if dl and dl['side'] in (side, 'both'):
             entries = [f for f in entries if os.path.dirname(f['path']) != dl['link']]
             os.makedirs(os.path.dirname(os.path.join(d, dl['link'])), exist_ok=True)
+            os.makedirs(os.path.join(d, dl['dir']), exist_ok=True)     # the directory may hold no binary on this side: the link must not dangle
             os.symlink(dl['text'], os.path.join(d, dl['link']))
         for f in entries:
             p = os.path.join(d, f['path'])
